@@ -9,6 +9,8 @@ correspondence: the real engine is run with QueryContainer.get_mapping instrumen
                 the theorems assume (match_ok), whole private passes and whole standardize() runs are compared (molecule,
                 log, set of recalculated atoms); explicify_hydrogens / implicify_hydrogens on generated, corpus and
                 malformed molecules; the accepted paths of fix_resonance; each rule on its own minimal instantiation.
+                standardize_charges: its loop bodies are translated from the source (tools/gen_c14charges.py) and replayed on the recorded
+                matcher output, SSSR and canonical orders (whole function after thiele(), intermediate charges, theorem hypotheses).
 search:         on the real code, independent of the model: heavy-atom multiset / net charge / hydrogen count per operation,
                 no exception and no valence error on valence-valid input, idempotence, explicify/implicify mutually
                 inverse, renumbering equivariance (tautomer fixing off), the documented pairs of test_groups.py,
@@ -28,7 +30,7 @@ from coqfmt import zraw, b, lst, opt, tup
 
 replay = common.generic_replay
 
-IMPORTS = 'Graph Standardize StandardizeMatch StandardizeTie StandardizeNeutral'
+IMPORTS = 'Graph Standardize StandardizeMatch StandardizeTie StandardizeNeutral StandardizeChargesBase StandardizeCharges StandardizeChargesPre StandardizeFerrocene StandardizeChargesTie'
 EXTRA = 'From Gen Require Import StdRules.'
 COLL = {0: 'double_rules', 1: 'single_rules', 2: 'metal_rules'}
 
@@ -636,6 +638,147 @@ def corr_neutralize(ck, rng):
 
 
 # ---------------------------------------------------------------------------------------------
+# correspondence: standardize_charges (heterocycle loops; bodies translated from the source)
+
+CHARGE_SMILES = ['c1c[nH]c(n1)-c1[nH]cc[nH+]1', 'C(c1c[nH]c[nH+]1)c1cc[nH][nH+]1', 'c1cc2[nH]cc[n+]2[nH]1', 'Cc1cc2[nH]cc[n+]2[nH]1', 'c1cn2cc[nH]c2[nH+]1', 'Cn1cc[n+](C)c1C',
+                 'c1c[nH+]c2cc[nH]cc12', 'c1cc2[nH+]ccc2[nH]1', 'c1ccn2cc[nH+]c2c1', 'C[n+]1ccn(C)c1-c1n(C)cc[n+]1C', 'c1ccc2[nH]c[nH+]c2c1', 'c1cc2c(cc1)[nH][nH+]c2',
+                 'Cn1cc[nH+]c1', 'c1c[nH]cn1', 'c1ccncc1', 'C[n+]1cc[nH]c1', 'c1c[nH+]c[nH]1.c1cc[nH][nH+]1', 'O=C1NC=C[NH2+]1', 'C1=C[N+]2=CCNC2=N1', 'c1cc2[nH]ccc2[nH+]1',
+                 'c1cc2cc[nH]c2c[nH+]1', 'c1cc2c[nH]cc2c[nH+]1', 'c1cc2c[nH+]ccc2[nH]1', 'c1[nH]cc2ccc[nH+]c12', '[Fe+2].c1cc[cH-]c1.C[c-]1cccc1', 'C[c-]1cccc1',
+                 # cyclopentadienyl-type anions (the ferrocene block): every charge position, fused, hetero, doubly charged, with a cation elsewhere
+                 'CC1=C[CH-]C=C1', 'C[C-]1C=CC=C1', 'CC1=CC=C[CH-]1', '[CH-]1C=Cc2ccccc12', 'c1cc[cH-]c1', '[Fe+2].C[c-]1cccc1.CC[c-]1cccc1', 'c1cc[n-]c1',
+                 'CC1=C(C)[C-](C)C(C)=C1C', 'Cc1c[cH-]c(C)c1', 'C[N+](C)(C)Cc1cc[cH-]c1', '[CH-]1C=CC(=C1)c1cc[cH-]c1', 'c1cc2cc[cH-]c2c1', 'Cc1cc[cH-]c1.c1c[nH]c[nH+]1']
+
+
+class ChargeRecorder:
+    """records what q.get_mapping yields for the patterns of fixed_rules / morgan_rules (as consumed), the molecule when the first
+    pattern is tried (after thiele()), the charges when the first morgan pattern is tried (end of the loop over fixed_rules) and the
+    canonical order computed after the last morgan pattern was tried"""
+
+    def __init__(self):
+        from chython.containers import QueryContainer
+        from chython.algorithms.morgan import Morgan
+        from chython.algorithms.standardize import _charged
+        self.qc, self.orig = QueryContainer, QueryContainer.get_mapping
+        self.cp = Morgan.__dict__['atoms_order']
+        self.orig_order = self.cp.func
+        self.tables = {'f': list(_charged.fixed_rules), 'm': list(_charged.morgan_rules)}
+        self.pid = {id(q): (t, i) for t, tab in self.tables.items() for i, (q, _) in enumerate(tab)}
+        rec = self
+
+        def wrapped(self, other, **kw):
+            key = rec.pid.get(id(self))
+            if key is None or rec.run is None:
+                yield from rec.orig(self, other, **kw)
+                return
+            run = rec.run
+            if run['g0'] is None:
+                run['g0'] = coqmol.mol_term(other)
+                run['n'] = len(other)
+            if key[0] == 'm' and run['mid'] is None:
+                run['mid'] = [(n, a.charge) for n, a in other.atoms()]
+            run['last'] = key
+            run['orders'] = []
+            out = run['y'][key[0]][key[1]]
+            for mp in rec.orig(self, other, **kw):
+                out.append(list(mp.items()))
+                yield mp
+
+        def order_func(self):
+            r = rec.orig_order(self)
+            if rec.run is not None:
+                rec.run['orders'].append(dict(r))
+            return r
+        self.wrapped, self.order_func = wrapped, order_func
+        self.run = None
+
+    def __enter__(self):
+        self.qc.get_mapping = self.wrapped
+        self.cp.func = self.order_func
+        return self
+
+    def __exit__(self, *a):
+        self.qc.get_mapping = self.orig
+        self.cp.func = self.orig_order
+
+    def record(self, fn):
+        self.run = {'g0': None, 'mid': None, 'orders': [], 'last': None, 'n': 0,
+                    'y': {t: [[] for _ in tab] for t, tab in self.tables.items()}}
+        try:
+            out = fn()
+        finally:
+            run, self.run = self.run, None
+        return out, run
+
+
+def corr_charges(ck, rng):
+    from chython import smiles
+    cases, meta = [], []
+    pool = [('charge rule', x) for x in charge_rule_family()] + [('azolium', s) for s in AZOLIUM + CHARGE_SMILES]
+    pool += [('corpus', s) for s in corpus.sample(corpus.lipo(), 25 if ck.tier == 'quick' else 400, ck.seed, 'c14-charges')]
+    pool += [('doc result', w) for _, w in test_groups_data()[::8 if ck.tier == 'quick' else 1]]
+    with ChargeRecorder() as R:
+        for k, (tag, s) in enumerate(pool):
+            variants = (0, 1, 2) if tag in ('charge rule', 'azolium') else (0,)
+            if ck.tier == 'quick' and tag == 'charge rule':
+                variants = {'NH': (0, 1), 'NMe': (0,), 'CMe': (2,)}[s[2]]
+            elif ck.tier == 'quick' and tag == 'azolium' and k % 3:
+                variants = (0, 1)
+            for variant in variants:
+                # 0: Kekule form, thiele() inside; 1: aromatic form, prepare_molecule=False; 2: renumbered Kekule form
+                try:
+                    m = charge_rule_instance(*s) if tag == 'charge rule' else smiles(s)
+                    m.kekule()
+                    if variant == 1:
+                        m.thiele()
+                    if variant == 2:
+                        m = corpus.renumber(m, random.Random(f'{ck.seed}:cr{k}'))
+                except Exception:
+                    ck.count(f'charges:{tag}:unbuildable')
+                    continue
+                label = s if isinstance(s, str) else 'charge rule %s[%d] %s' % s
+                try:
+                    changed, run = R.record(lambda: m.standardize_charges(logging=True, prepare_molecule=variant != 1, _fix_stereo=False))
+                except Exception as e:
+                    ck.count(f'charges:raises {type(e).__name__}')
+                    continue
+                if run['g0'] is None:
+                    continue
+                orders = run['orders']
+                yf, ym = (lst([maps_term(ms) for ms in run['y'][t]]) for t in ('f', 'm'))
+                accepted_any = any(run['y'][t][i] for t in 'fm' for i in range(len(run['y'][t])))
+                # the canonical order the pair loop read: the first one computed after the last pattern was tried
+                # (atoms_order is recomputed for the pair loop if there are pairs and for the ferrocene block if a ring was reset, in this order)
+                final = [(n, a.charge) for n, a in m.atoms()]
+                # the heterocycle part reports at most the atoms of its matches; what follows in `changed` comes from the ferrocene block
+                hetero = {n for t in 'fm' for ms in run['y'][t] for mp in ms for _, n in mp}
+                cut = next((i for i, n in enumerate(changed) if n not in hetero), len(changed))
+                # a ferrocene atom can also be an atom of a heterocycle match only in a fused anion-cation system: not generated
+                head, ferro = changed[:cut], changed[cut:]
+                pair_order = orders[0] if orders and (len(orders) == 2 or not ferro) else {}
+                ferro_order = orders[-1] if orders and ferro else {}
+                ranks = lst([tup(zraw(n), zraw(r)) for n, r in pair_order.items()])
+                ranks_f = lst([tup(zraw(n), zraw(r)) for n, r in ferro_order.items()])
+                chg = lst([tup(zraw(n), zraw(c)) for n, c in final if n not in ferro])
+                sssr = lst([zl(r) for r in m.sssr])
+                cases.append(f'charges_full_ok {yf} {ym} {ranks} {ranks_f} {sssr} {run["g0"]} {zl(changed)} {lst([tup(zraw(n), zraw(c)) for n, c in final])}')
+                meta.append({'kind': 'standardize_charges incl. the ferrocene block', 'tag': tag, 'mol': label, 'variant': variant, 'changed': changed})
+                if ck.tier != 'quick' or ferro or k % 3 == 0:       # the heterocycle part alone (subsumed by the whole function unless the ferrocene block fired)
+                    cases.append(f'charges_ok {yf} {ym} {ranks} {run["g0"]} {zl(head)} {zl(ferro)} {chg}')
+                    meta.append({'kind': 'standardize_charges', 'tag': tag, 'mol': label, 'variant': variant, 'changed': changed})
+                cases.append(f'charges_pre_ok {yf} {ym} {ranks} {run["g0"]}')
+                meta.append({'kind': 'standardize_charges: hypothesis of the whole-call net-charge theorem (charges as the pattern says at every accepted match)',
+                             'tag': tag, 'mol': label, 'variant': variant})
+                if run['mid'] is not None and (ck.tier != 'quick' or any(run['y']['f'])):
+                    cases.append(f'charges_mid_ok {yf} {run["g0"]} {lst([tup(zraw(n), zraw(c)) for n, c in run["mid"]])}')
+                    meta.append({'kind': 'standardize_charges: end of the loop over fixed_rules', 'tag': tag, 'mol': label, 'variant': variant})
+                nf = sum(len(ms) for ms in run['y']['f'])
+                nm = sum(len(ms) for ms in run['y']['m'])
+                ck.count(f'charges:{tag}: fixed-rule mappings={min(nf, 3)} morgan-rule mappings={min(nm, 3)}')
+                ck.count('charges:' + ('recharged' if head else 'mappings but nothing accepted' if accepted_any else 'no mapping') + (' + ferrocene block' if ferro else ''))
+                ck.case(('charges', label, variant), nontrivial=bool(changed))
+    return cases, meta
+
+# ---------------------------------------------------------------------------------------------
 # search: property-level oracles on the real code (independent of the model)
 
 OPS = collections.OrderedDict([
@@ -774,6 +917,206 @@ def valence_valid(m):
         if a.atomic_number == 1 and sum(1 for bd in m._bonds[n].values() if int(bd) != 8) > 1:
             return False
     return True
+
+
+def stale_views(m):
+    """cache coherence: every cached view the object still carries after an operation must be what a rebuilt-from-scratch copy computes (a
+    copy() carries no cached view).  Compared exactly where the view is a function of the graph alone (connectivity without special bonds,
+    components, ring counts, ring sizes per atom, canonical order); for the SSSR (a choice among equally small rings) only what every choice
+    shares: the atoms exist, every ring is a cycle of the present graph, number and sizes of the rings.  -> list of (view, reason)"""
+    d = m.__dict__
+    out = []
+    try:
+        fresh = m.copy()
+    except Exception:
+        return out
+    atoms = set(m._atoms)
+
+    def norm(k, v):
+        if k == 'not_special_connectivity':
+            return {n: sorted(x) for n, x in v.items()}
+        if k == 'connected_components':
+            return sorted(sorted(c) for c in v)
+        if k == 'atoms_rings_sizes':
+            return {n: sorted(x) for n, x in v.items()}
+        if k == 'atoms_order':
+            return dict(v)
+        return v
+    for k in ('not_special_connectivity', 'connected_components', 'atoms_rings_sizes', 'rings_count', 'atoms_order'):
+        if k in d:
+            try:
+                want = norm(k, getattr(fresh, k))
+                got = norm(k, d[k])
+            except Exception:
+                continue
+            if got != want:
+                gone = sorted(set(got) - atoms) if isinstance(got, dict) else []
+                out.append((k, f'cached {k} differs from the recomputed one' + (f'; it still mentions the non-existing atoms {gone}' if gone else '')))
+    if 'sssr' in d:
+        try:
+            rings = list(d['sssr'])
+            want = sorted(len(r) for r in fresh.sssr)
+            if sorted(len(r) for r in rings) != want:
+                out.append(('sssr', 'cached sssr has other ring sizes than the recomputed one'))
+            for r in rings:
+                if any(n not in atoms for n in r) or any(r[i] not in m._bonds[r[i - 1]] for i in range(len(r))):
+                    out.append(('sssr', f'cached ring {tuple(r)} is not a cycle of the present graph'))
+                    break
+        except Exception:
+            pass
+    # the labels stored on the atoms (what the substructure matcher and thiele() read) against the documented definition, computed here from the
+    # bond orders: hybridization 4 with an aromatic bond, else 3 with a triple or two double bonds, 2 with one double bond, else 1; number of
+    # neighbours without special bonds
+    for n, a in m.atoms():
+        orders = [int(bd) for bd in m._bonds[n].values() if int(bd) != 8]
+        hyb = 4 if 4 in orders else 3 if 3 in orders or orders.count(2) > 1 else 2 if 2 in orders else 1
+        try:
+            if a.hybridization != hyb:
+                out.append(('hybridization', f'atom {n} carries the hybridization label {a.hybridization}, its bonds {sorted(orders)} mean {hyb}'))
+                break
+            if a.neighbors != len(orders):
+                out.append(('neighbors', f'atom {n} carries the neighbours label {a.neighbors}, it has {len(orders)} non-special bonds'))
+                break
+        except Exception:
+            break
+    return out
+
+
+STALE_LABELS = 'stale-labels:fix_resonance-keeps-the-hybridization-labels'
+
+
+def fix_resonance_leaves_stale_labels(make):
+    """mechanism test of the recorded finding: on the Kekule form of this input fix_resonance() alone moves double bonds and leaves atoms whose stored
+    hybridization label is not what their bonds mean (the labels were right before the call)"""
+    try:
+        x = make()
+        x.kekule()
+        if any(k == 'hybridization' for k, _ in stale_views(x)):
+            return False
+        x.fix_resonance()
+        return any(k == 'hybridization' for k, _ in stale_views(x))
+    except Exception:
+        return False
+
+
+def charge_rule_instance(table, i, variant):
+    """a (pattern, fix) rule of the charge-position tables of standardize_charges built as a real molecule: the pattern's atoms, charges and
+    aromatic bonds; the two pyrrole-like nitrogens :1 and :2 carry a hydrogen ('NH') or a methyl group ('NMe'), a bridgehead cation :3 none;
+    'CMe': the NH form with a methyl group on the first hydrogen-bearing carbon (the two nitrogens are no longer symmetry equivalent)"""
+    from chython import MoleculeContainer
+    from chython.periodictable import Element
+    from chython.algorithms.standardize import _charged
+    q, fix = {'fixed': _charged.fixed_rules, 'morgan': _charged.morgan_rules}[table][i]
+    m = MoleculeContainer()
+    for n, a in q._atoms.items():
+        m.add_atom(Element.from_atomic_number(a.atomic_number)(charge=a.charge, is_radical=a.is_radical), n)
+    for n, k, bd in q.bonds():
+        m.add_bond(n, k, bd.order[0])
+    nxt = max(q._atoms) + 1
+    for n in (1, 2):
+        if variant == 'NMe':
+            m.add_atom(Element.from_atomic_number(6)(), nxt)
+            m.add_bond(n, nxt, 1)
+            nxt += 1
+        else:
+            m._atoms[n]._implicit_hydrogens = 1
+    for n in q._atoms:
+        if n not in (1, 2) and m._atoms[n].atomic_number == 7:
+            m._atoms[n]._implicit_hydrogens = 0
+    if variant == 'CMe':
+        n = next((n for n, a in m.atoms() if a.atomic_number == 6 and len(m._bonds[n]) == 2), None)
+        if n is not None:
+            m.add_atom(Element.from_atomic_number(6)(), nxt)
+            m.add_bond(n, nxt, 1)
+    m.kekule()
+    return m
+
+
+def charge_rule_family():
+    from chython.algorithms.standardize import _charged
+    return [(t, i, v) for t, tab in (('fixed', _charged.fixed_rules), ('morgan', _charged.morgan_rules)) for i in range(len(tab)) for v in ('NH', 'NMe', 'CMe')]
+
+
+# explicit-hydrogen spellings: hydrogens on ring stereo centres, on aromatic / charged rings (cyclopentadienyl anions: the ferrocene step of
+# standardize_charges counts neighbours), next to the families of the other pools
+XH_SMILES = ['O[C@H]1CCOC1', 'C[C@H]1CC[C@@H](O)CC1', 'N[C@H]1CCC(=O)C1', 'C[C@@H]1CCC(O)C1', 'C[C@H](N)C(O)=O', 'F/C=C/C1CC1', 'C[C-]1C=CC=C1', 'CC1=C[CH-]C=C1',
+             'CC1=CC=C[CH-]1', '[Fe+2].c1cc[cH-]c1.C[c-]1cccc1', 'c1ccccc1', 'Cc1cc[nH][nH+]1', 'Cc1c[nH]c[nH+]1', 'OC1=NC=CC=C1', 'C[N+](=O)[O-]', 'CN(=O)=O', 'C1CC1[C@H](C)O',
+             'O=C1CC[C@@H](C)C1', 'C[C@]12CCCC[C@H]1CCC2', '[O-]c1ccccc1[CH2+]', 'C[S+](C)[O-]', 'OC(=O)[C@@H]1CCCN1']
+
+
+def explicit_spelling(m):
+    """the molecule written with every hydrogen as an atom and parsed again: an object with the history the SMILES parser leaves"""
+    from chython import smiles
+    m.explicify_hydrogens()
+    return smiles(str(m))
+
+
+def check_explicit_history(ck, lim, smi, make_implicit, code):
+    """history family: the explicit-hydrogen spelling (freshly parsed) of a valence-valid molecule.  implicify_hydrogens() never fails on it and gives
+    back the implicit molecule (labelled graph, stereo labels, canonical string); afterwards the object behaves like a rebuilt-from-scratch copy of
+    itself: no stale cached view, and every charge / resonance / canonicalisation step gives the same result on the object and on its copy"""
+    make_given = make_implicit
+
+    def make_implicit():        # Kekule forms: implicify_hydrogens() does not touch hydrogens on aromatic atoms (no valence rule matches them)
+        m = make_given()
+        if m is not None:
+            m.kekule()
+        return m
+    a = make_implicit()
+    if a is None or not valence_valid(a) or any(x.atomic_number == 1 for _, x in a.atoms()):
+        return
+    build = f'{code}; m.kekule(); m.explicify_hydrogens(); m = smiles(str(m))'
+    inp = {'smiles': smi, 'built_by': build}
+    rp = (f'from chython import smiles\n{build}\nprint(m); print(m.implicify_hydrogens(), m)\nc = m.copy()\n'
+          f'print(m.standardize_charges(), m); print(c.standardize_charges(), c); print(m.canonicalize(), m); print(c.canonicalize(), c)')
+    try:
+        x = explicit_spelling(make_implicit())
+    except Exception:
+        ck.count('search:explicit spelling unbuildable')
+        return
+    n_h = sum(1 for _, at in x.atoms() if at.atomic_number == 1)
+    ck.case(('explicit history', smi, code), nontrivial=n_h > 0)
+    ck.count('search:explicit-hydrogen spellings (parsed afresh)')
+    try:
+        removed = x.implicify_hydrogens()
+    except Exception as e:
+        lim.counterexample('explicit history raises', f'explicit-history-raises:{type(e).__name__}:{smi}', f'implicify_hydrogens() raises {type(e).__name__} on the freshly parsed '
+                           'explicit-hydrogen spelling of a valence-valid molecule', inp, f'{type(e).__name__}: {e}', str(a), 'the operation must not fail on valence-valid input',
+                           replay_py=rp)
+        return
+    same = isomorphic(a, x)
+    if same is False or removed != n_h or stereo_count(a) != stereo_count(x) or str(a) != str(x):
+        lim.counterexample('explicit history', f'explicit-history:{smi}', 'implicify_hydrogens() of the explicit-hydrogen spelling is not the implicit molecule', inp,
+                           {'removed': removed, 'result': str(x), 'stereo labels': stereo_count(x)}, {'removed': n_h, 'result': str(a), 'stereo labels': stereo_count(a)},
+                           'labelled-graph isomorphism, number of stereo labels, canonical string', replay_py=rp)
+        return
+    stale = stale_views(x)
+    if stale:
+        lim.counterexample('stale view', f'stale-view:implicify_hydrogens:{stale[0][0]}:{smi}', 'implicify_hydrogens() leaves a cached view that a rebuilt copy of the molecule '
+                           'computes differently', inp, [r for _, r in stale], 'every cached view equals the recomputed one', 'cached views of the object vs of its copy()',
+                           replay_py=rp)
+    def make_x():
+        return explicit_spelling(make_implicit())
+    make_x.code = build
+    check_op(ck, lim, 'implicify_hydrogens', smi, make_x)
+    for name in ('standardize_charges', 'fix_resonance', 'canonicalize'):
+        try:
+            same_obj = explicit_spelling(make_implicit())
+            same_obj.implicify_hydrogens()      # the object as implicify_hydrogens() leaves it, with the views it kept
+            rebuilt = same_obj.copy()           # copy() carries no cached view
+        except Exception:
+            continue
+        try:
+            OPS[name](same_obj)
+            OPS[name](rebuilt)
+        except Exception as e:
+            lim.counterexample('explicit history raises', f'explicit-history-raises:{name}:{type(e).__name__}:{smi}', f'{OP_CODE[name]} after implicify_hydrogens() raises '
+                               f'{type(e).__name__}', inp, f'{type(e).__name__}: {e}', 'no exception', 'the operation must not fail on valence-valid input', replay_py=rp)
+            continue
+        if state(same_obj) != state(rebuilt) and isomorphic(same_obj, rebuilt) is False:
+            lim.counterexample('explicit history', f'explicit-history:{name}:{smi}', f'{OP_CODE[name]} after implicify_hydrogens() gives another result on the object than on a '
+                               'rebuilt copy of it (a stale cached view decides)', inp, str(same_obj), str(rebuilt),
+                               'same operation on the object implicify_hydrogens() left and on its copy()', replay_py=rp)
 
 
 class Limited:
@@ -937,6 +1280,13 @@ def check_op(ck, lim, name, smi, make, renumber=True, fixed_corpus=False):
             else:
                 lim.counterexample(f'charge or H {name}', f'composition:{name}:{smi}', f'{code} changes net charge or hydrogen count of a valence-valid molecule', inp,
                                    obs, exp, 'sum of charges / implicit + explicit hydrogens', replay_py=rp)
+    stale = stale_views(m)
+    if stale:
+        skey = f'stale-view:{name}:{stale[0][0]}:{smi}'
+        if stale[0][0] == 'hybridization' and family in ('fix_resonance', 'standardize', 'canonicalize') and fix_resonance_leaves_stale_labels(make):
+            skey = STALE_LABELS
+        lim.counterexample(f'stale view {name}', skey, f'{code} leaves a cached view that a rebuilt copy of the result computes differently',
+                           inp, [r for _, r in stale], 'every cached view equals the recomputed one', 'cached views of the object vs of its copy()', replay_py=rp)
     first = m.copy()
     # idempotence: a second application changes nothing (molecules compared; the return value is not a change indicator)
     try:
@@ -961,6 +1311,14 @@ def check_op(ck, lim, name, smi, make, renumber=True, fixed_corpus=False):
                     g.fix_resonance()
                     if state(g) != state(h) and not isomorphic(g, h):
                         key = 'not-idempotent:fix_resonance-changes-the-output-of-standardize'
+                    elif state(g) != state(h) and any(k == 'hybridization' for k, _ in stale_views(g)) and not any(k == 'hybridization' for k, _ in stale_views(h)):
+                        key = STALE_LABELS      # fix_resonance moves the charge to a symmetry-equivalent atom and thiele() then reads the stale labels
+                    else:
+                        # the same test on the result as it is (aromatic form kept): the oscillation may need the aromatic spelling of the rest
+                        g2 = first.copy()
+                        g2.fix_resonance()
+                        if state(g2) != state(first) and isomorphic(g2, first) is False:
+                            key = 'not-idempotent:fix_resonance-changes-the-output-of-standardize'
                 except Exception:
                     pass
             elif name.startswith('neutralize('):
@@ -1135,13 +1493,27 @@ def search(ck, rng):
     for s in AROMATIC_RES:
         pool.append(('aromatic resonance', s, 'kekule'))
         pool.append(('aromatic resonance', s, 'thiele'))
+    for t, i, v in charge_rule_family():
+        if v != 'CMe' or not quick:
+            pool.append(('charge rule', (t, i, v), 'kekule'))
+        if v != 'NMe' or not quick:
+            pool.append(('charge rule', (t, i, v), 'thiele'))
     groups = doc_groups()
+    xh = set(XH_SMILES) | set(corpus.sample(lip, 6 if quick else 150, ck.seed, 'c14-search-xh')) | set(AZOLIUM[::4 if quick else 1])
+    for s in XH_SMILES + corpus.sample(lip, 6 if quick else 150, ck.seed, 'c14-search-xh'):
+        pool.append(('explicit history', s, None))
     for tag, s, k in pool:
         # hydrogen counts of aromatic hetero-atoms are unknown right after parsing: inputs are Kekule forms or re-aromatised ones
         thiele = bool(hash_pick(s, 'form') % 2)
         if k in ('kekule', 'thiele'):
             thiele, k = k == 'thiele', None
-        if k is None:
+        if tag == 'charge rule':
+            def make(s=s, thiele=thiele):
+                return prepared(charge_rule_instance(*s), thiele)
+            make.code = (f'import sys; sys.path.insert(0, "/verif/harness"); from checks.C14 import charge_rule_instance\n'
+                         f'm = charge_rule_instance{s!r}; m.kekule()' + ('; m.thiele()' if thiele else ''))
+            s = 'charge rule %s[%d] %s' % s
+        elif k is None:
             def make(s=s, thiele=thiele):
                 return prepared(smiles(s), thiele)
             make.code = f'm = smiles({s!r}); m.kekule()' + ('; m.thiele()' if thiele else '')
@@ -1159,7 +1531,14 @@ def search(ck, rng):
             continue
         valid = valence_valid(m0)
         ck.count(f'search:{tag} ' + ('valence-valid' if valid else 'valence-INVALID (heavy atoms only)'))
+        if s in xh and valid:
+            check_explicit_history(ck, lim, s, make, make.code)
+        if tag == 'explicit history':
+            continue
         for name in OPS:
+            if tag == 'charge rule' and name not in (('standardize_charges', 'canonicalize') if quick else
+                                                     ('standardize_charges', 'canonicalize', 'canonicalize(keep_kekule=True)', 'fix_resonance')):
+                continue
             if quick and tag in ('doc', 'documented result') and name not in ('standardize', 'canonicalize', 'fix_resonance', 'standardize_charges',
                                                                               'explicify_hydrogens' if tag == 'doc' else 'neutralize'):
                 continue
@@ -1425,6 +1804,8 @@ def run(ck):
     ck.trusted += ['translator tools/gen_stdrules.py (imports chython under the shim and dumps the live rule objects; source audit of the engine statements by Python ast)',
                    'translator tools/gen_elements.py (element tables used by centre_invalid)',
                    'translator tools/gen_c14consts.py (Python ast: constants and statement shapes of molecule.py / resonance.py / acid_base.py / query.py)',
+                   'translator tools/gen_c14charges.py (Python ast: the three loop bodies of standardize_charges, statement by statement; the primitives they are '
+                   'translated to are coq/model/StandardizeChargesBase.v)',
                    'correspondence runner harness/checks/C14.py + harness/coqcases.py + harness/coqmol.py (instrumented QueryContainer.get_mapping / '
                    'Resonance.__find_delocalize_path)', 'Model.Valence (C04 model of calc_implicit / valence_rules) inside the correspondence glue coq/model/StandardizeTie.v',
                    'CachedMethods shim harness/boot.py', 'CPython 3.12.1', 'the labelled-graph isomorphism test of harness/checks/C14.py (search only)']
@@ -1434,7 +1815,9 @@ def run(ck):
                        'pattern atom, adjacency of pattern bonds), which the correspondence tests on every recorded mapping',
                        'the Python fallback matcher is lazy (reads live atoms while the engine patches); the model takes the list of yielded mappings as given',
                        'calc_implicit and valence_rules enter the model as Section variables; the correspondence instantiates them with the C04 model',
-                       'the path SEARCH of fix_resonance, thiele/kekule, standardize_charges (beyond the table obligation), neutralize and the tautomer generators are not modelled']
+                       'standardize_charges: what get_mapping yields for the charge-rule patterns, self.sssr and self.atoms_order are INPUTS of the model (recorded per run); '
+                       'the net-charge theorems assume charges_pre / ferrocene_pre (the charges are what the pattern says at the moment of every accepted match), evaluated on every recorded run',
+                       'the path SEARCH of fix_resonance, thiele/kekule, which sites neutralize matches and the tautomer generators are not modelled']
     ck.extra['rule'] = ('correspondence: documented pairs of test_groups.py, hand-made functional groups / metal-organics / salts, every rule on its own minimal instantiation, '
                         'corpus molecules and corpus molecules decorated with the functional-group spellings the tables mention (half of them renumbered at random); a case '
                         'is non-trivial when at least one rule matched / a hydrogen was added or removed / a resonance path was applied. search: the same families as '
@@ -1448,7 +1831,8 @@ def run(ck):
         laps[name] = round(time.time() - t0, 1)
         t0 = time.time()
 
-    proved = common.standard_proof_steps(ck, translators=['elements', 'stdrules', 'c14consts'], extra_targets=('model/StandardizeTie.vo', 'model/StandardizeMatch.vo', 'model/StandardizeNeutral.vo'))
+    proved = common.standard_proof_steps(ck, translators=['elements', 'stdrules', 'c14consts', 'c14charges'],
+                                         extra_targets=('model/StandardizeTie.vo', 'model/StandardizeMatch.vo', 'model/StandardizeNeutral.vo', 'model/StandardizeChargesTie.vo'))
     lap('proof')
     tied = True
     disagreeing = []
@@ -1464,7 +1848,9 @@ def run(ck):
                    ('c14_hydrogens', corr_hydrogens, 'correspondence: explicify_hydrogens / implicify_hydrogens == Coq model (whole molecule incl. insertion order, exceptions)', 60),
                    ('c14_neutralize', corr_neutralize, 'correspondence: neutralize(keep_charge=True / False) == Coq model of the proton moves (donor / acceptor sites '
                     'as the real patterns match them)', 60),
-                   ('c14_resonance', corr_resonance, 'correspondence: fix_resonance == Coq application of the accepted paths + hydrogen recalculation', 60)]
+                   ('c14_resonance', corr_resonance, 'correspondence: fix_resonance == Coq application of the accepted paths + hydrogen recalculation', 60),
+                   ('c14_charges', corr_charges, 'correspondence: standardize_charges (loops over fixed_rules / morgan_rules, pair assignment) == the loop bodies translated '
+                    'from the source (Gen.C14Charges) on the recorded matcher output and canonical order: `changed`, every charge, charges at the end of the fixed loop', 80)]
         for name, fn, what, shard in batches:
             try:
                 cases, meta = fn(ck, rng)
